@@ -92,6 +92,8 @@ class ElectronicState(UnitsManaged):
         """ Returns energy of the state (electronic + vibrational)
         
         """
+        # the contributions are added in internal units and the sum is
+        # converted once (not every unit is linear in the energy, e.g. nm)
         en = 0.0
 
         if vsig is not None:
@@ -99,17 +101,15 @@ class ElectronicState(UnitsManaged):
                 raise Exception()  
             k = 0
             for nn in self.vibmodes:
-                en += vsig[k]*self.convert_energy_2_current_u(nn.omega)
+                en += vsig[k]*nn.omega
                 k += 1
 
         k = 0
         for nn in self.elsignature:
-            en += \
-            self.convert_energy_2_current_u(
-                    self.aggregate.monomers[k].elenergies[nn])
+            en += self.aggregate.monomers[k].elenergies[nn]
             k += 1
             
-        return en
+        return self.convert_energy_2_current_u(en)
     
         
     def vibenergy(self, vsig=None):
@@ -126,8 +126,9 @@ class ElectronicState(UnitsManaged):
            
             k = 0
             for nn in self.vibmodes:
-                en += vsig[k]*self.convert_energy_2_current_u(nn.omega)
+                en += vsig[k]*nn.omega
                 k += 1
+            en = self.convert_energy_2_current_u(en)
             
         return en
         
@@ -393,8 +394,9 @@ class VibronicState(UnitsManaged):
            
             k = 0
             for nn in self.elstate.vibmodes:
-                en += self.vsig[k]*self.convert_energy_2_current_u(nn.omega)
+                en += self.vsig[k]*nn.omega
                 k += 1
+            en = self.convert_energy_2_current_u(en)
             
         return en        
 
